@@ -10,3 +10,9 @@ def run(ctx):
     ctx.assumptions.extend(c_export.ASSUMPTIONS)
     from contracts import c_conntarget as cc
     ctx.verify(cc.engine(), cc.VERIFY, min_obligations={cc.KEY: 10})
+    key, obs, info = cc.export_instance_conn_obligations()
+    for u in info.get("unsupported", []):
+        ctx.unsupported.append((key, u))
+    if len(obs) < 1 and not info.get("unsupported"):
+        ctx.checker_errors.append("no obligation for the connection loop of export_instance")
+    ctx.discharge(obs, key + " [connection loop body]", info)
